@@ -49,8 +49,6 @@ func byteOrder(info *types.Info, call *ast.CallExpr, method string) (string, boo
 func valueOf(c *core.Ctx, o types.Object) (int64, bool) {
 	switch v := o.(type) {
 	case *types.Const:
-		tv := types.TypeAndValue{Value: v.Val()}
-		_ = tv
 		if i, ok := constInt(v); ok {
 			return i, true
 		}
@@ -378,6 +376,9 @@ type access struct {
 	desc string
 }
 
+// accesses classifies the reads of the payload by the ROLE they play (which
+// decoder or digest consumes them); reads with no role in the trailer check
+// (say a d[0] used for a log line) are returned with kind "other".
 func (v *verif) accesses() []access {
 	var out []access
 	off := func(e ast.Expr, dflA, dflB int64) (int64, int64, bool) {
@@ -386,21 +387,25 @@ func (v *verif) accesses() []access {
 		}
 		return v.lin(e, 0)
 	}
+	src := v.e.c.Src
 	ast.Inspect(v.fn.Decl.Body, func(n ast.Node) bool {
 		switch x := n.(type) {
 		case *ast.IndexExpr:
 			if objOf(v.info, x.X) != v.d {
 				return true
 			}
-			a, b, ok := v.lin(x.Index, 0)
-			ac := access{e: x, kind: "unknown", desc: v.e.c.Src(x)}
-			if ok {
-				ac.kind = "bad"
-				ac.desc = fmt.Sprintf("%s = d[%s]", v.e.c.Src(x), offs(a, b))
-				if a == 1 && b == -10 {
+			ac := access{e: x, kind: "other", desc: src(x)}
+			if _, assembled := v.shiftApplied(x); assembled { // one byte of an integer put together with << and |
+				a, b, ok := v.lin(x.Index, 0)
+				switch {
+				case !ok:
+					ac.kind = "unknown"
+				case a == 1 && b == -10:
 					ac.kind = "ver-lo"
-				} else if a == 1 && b == -9 {
+				case a == 1 && b == -9:
 					ac.kind = "ver-hi"
+				default:
+					ac.kind, ac.desc = "bad", fmt.Sprintf("version byte %s = d[%s]", src(x), offs(a, b))
 				}
 			}
 			out = append(out, ac)
@@ -410,17 +415,30 @@ func (v *verif) accesses() []access {
 			}
 			la, lb, ok1 := off(x.Low, 0, 0)
 			ha, hb, ok2 := off(x.High, 1, 0)
-			ac := access{e: x, kind: "unknown", desc: v.e.c.Src(x)}
-			if ok1 && ok2 {
-				ac.kind = "bad"
-				ac.desc = fmt.Sprintf("%s = d[%s:%s]", v.e.c.Src(x), offs(la, lb), offs(ha, hb))
+			ac := access{e: x, kind: "other", desc: src(x)}
+			role := ""
+			if call := callOn(v.fn.Decl.Body, x); call != nil {
+				if _, ok := byteOrder(v.info, call, "Uint16"); ok {
+					role = "ver-slice"
+				} else if _, ok := byteOrder(v.info, call, "Uint64"); ok {
+					role = "crc-slice"
+				} else if v.e.isDigest(core.CalleeFunc(v.info, call)) {
+					role = "covered"
+				}
+			}
+			if role != "" {
+				good := map[string]bool{
+					"ver-slice": la == 1 && lb == -10 && ha == 1 && (hb == 0 || hb == -8),
+					"crc-slice": la == 1 && lb == -8 && ha == 1 && hb == 0,
+					"covered":   la == 0 && lb == 0 && ha == 1 && hb == -8,
+				}[role]
 				switch {
-				case la == 1 && lb == -10 && ha == 1 && (hb == 0 || hb == -8):
-					ac.kind = "ver-slice"
-				case la == 1 && lb == -8 && ha == 1 && hb == 0:
-					ac.kind = "crc-slice"
-				case la == 0 && lb == 0 && ha == 1 && hb == -8:
-					ac.kind = "covered"
+				case !ok1 || !ok2:
+					ac.kind = "unknown"
+				case good:
+					ac.kind = role
+				default:
+					ac.kind, ac.desc = "bad", fmt.Sprintf("%s %s = d[%s:%s]", map[string]string{"ver-slice": "version", "crc-slice": "stored CRC", "covered": "digested range"}[role], src(x), offs(la, lb), offs(ha, hb))
 				}
 			}
 			out = append(out, ac)
